@@ -1,4 +1,5 @@
 import Rp2.Proofs.PropsB
+import Rp2.Proofs.BlankRows
 import Rp2.Proofs.ParseFields
 import Rp2.Proofs.ParseIds
 /-! # C11 — parsed transactions equal the spreadsheet rows for any column layout -/
@@ -66,4 +67,11 @@ theorem intra_row_fields_are_cells (cfg : Config) (asset : String) (acct : Strin
       (∃ q, field cfg.intraCols row "crypto_sent" = some (.num q) ∧ sent = toUnits q) ∧
       (∃ q, field cfg.intraCols row "crypto_received" = some (.num q) ∧ recv = toUnits q) ∧
       t = mkIntra r ts (acct fe fh) (acct te th) ((optNum price).getD 0) sent recv := mkIntraRow_fields cfg asset acct r row t h
+/-- **blank rows between tables are skipped, however many there are**: outside a table, any number of rows whose first cell is empty changes
+    nothing but the row numbers of what follows — the sheet is read to its end -/
+theorem blank_rows_between_tables_are_skipped (cfg : Config) (asset : String) (acct : String → String → Nat) (blanks : List (List Cell)) (i : Nat)
+    (st : PState) (rest : List (List Cell)) (hcur : st.cur = none) (hb : ∀ r ∈ blanks, isEmptyCell (r.getD 0 .empty) = true) :
+    parseRows cfg asset acct i st (blanks ++ rest) =
+      parseRows cfg asset acct (i + blanks.length) { st with count := st.count + blanks.length } rest :=
+  parseRows_blanks cfg asset acct blanks i st rest hcur hb
 end Rp2.C11
